@@ -293,6 +293,78 @@ def r06_5(ctx: Ctx, rule: str = "R06.5") -> None:
     ctx.check(ok, rule, es, es.node, "outputs looked up by member.id", "_extract_single looks outputs up by something other than member.id", construct="lookup key")
 
 
+def _nullable_keys(ctx: Ctx) -> Set[str]:
+    """per-file keys the FilesInfo readers may set to None (`value if defined[i] else None`)."""
+    fi = ctx.prog.cls("FilesInfo", "archiveinfo")
+    keys: Set[str] = set()
+    for m in fi.methods.values():
+        if not m.name.startswith("_read"):
+            continue
+        for n in walk(m.node):
+            if isinstance(n, ast.Assign) and isinstance(n.value, ast.IfExp) and isinstance(n.value.orelse, ast.Constant) and n.value.orelse.value is None:
+                t = n.targets[0]
+                if isinstance(t, ast.Subscript) and isinstance(t.slice, ast.Constant):
+                    keys.add(t.slice.value)
+                elif isinstance(t, ast.Subscript) and isinstance(t.slice, ast.Name) and t.slice.id in m.params:
+                    for caller in fi.methods.values():
+                        for c in q.calls(caller):
+                            if attr_tail(c) == m.name:
+                                keys |= {a.value for a in c.args if isinstance(a, ast.Constant) and isinstance(a.value, str)}
+    return keys
+
+
+def r06_7(ctx: Ctx) -> None:
+    """undefined (None) timestamps / attributes of valid archives must not be fed to conversions unguarded."""
+    keys = _nullable_keys(ctx)
+    ctx.need({"lastwritetime", "attributes"} <= keys, f"nullable per-file keys not derived from the readers: {sorted(keys)}")
+    clo = shared.read_closure(ctx)
+    n_sites = 0
+    for fq, f in sorted(clo.items()):
+        if f.module != "py7zr":
+            continue
+        for n in walk(f.node):
+            if not (isinstance(n, ast.Subscript) and isinstance(n.ctx, ast.Load) and isinstance(n.slice, ast.Constant) and n.slice.value in keys):
+                continue
+            # how is the value used?  (call argument / arithmetic) => needs a not-None guard
+            pm = getattr(f, "_pm", None)
+            if pm is None:
+                from ..model import parent_map
+                pm = parent_map(f.node)
+                f._pm = pm  # type: ignore[attr-defined]
+            par = pm.get(n)
+            risky = isinstance(par, ast.Call) and n in par.args and dotted(par.func) not in ("isinstance", "str", "repr", "print") \
+                or isinstance(par, (ast.BinOp, ast.UnaryOp)) and not isinstance(par, ast.BoolOp)
+            if not risky:
+                continue
+            n_sites += 1
+            facts = q.facts_at(f, n)
+            ok = q.known_not_none(facts, n)
+            ctx.check(ok, "R06.7", f, par, f"{fq}: {norm(n)} converted under a not-None guard",
+                      f"{norm(n)} is None for a member whose {n.slice.value} is undefined (legal in the 7z format) but is passed to `{norm(par)[:60]}` without a not-None guard: "
+                      "reading such a valid archive raises TypeError", path=ctx.res.call_path(shared.read_roots(ctx), fq))
+    ctx.ok("R06.7", f"{n_sites} conversions of nullable per-file values inspected (keys {sorted(keys)})")
+
+
+def r06_8(ctx: Ctx) -> None:
+    """the folder-level CRC may only be compared once the WHOLE folder has been decoded."""
+    wd = ctx.prog.func("py7zr", "Worker.decompress")
+    raises = [n for n in walk(wd.node) if isinstance(n, ast.Raise) and isinstance(n.exc, ast.Call) and dotted(n.exc.func) == "CrcError"
+              and any(isinstance(x, ast.Attribute) and x.attr in ("crc", "digest") and norm(x.value) == "decompressor" for x in ast.walk(n.exc))]
+    ctx.floor("R06.8", len(raises), 1, "folder-level CrcError raise in Worker.decompress")
+    dcls = ctx.prog.cls("SevenZipDecompressor", "compressor")
+    for r in raises:
+        facts = q.facts_at(wd, r)
+        good = False
+        for cd, pol in facts:
+            for c in [x for x in ast.walk(cd) if isinstance(x, ast.Call) and isinstance(x.func, ast.Attribute) and norm(x.func.value) == "decompressor"]:
+                m = ctx.prog.method(dcls, c.func.attr)
+                if m is not None and any(isinstance(x, ast.Attribute) and x.attr in ("unpacksizes", "_unpacksizes") for x in walk(m.node)):
+                    good = True
+        ctx.check(good, "R06.8", wd, r, "folder CRC compared only when the decoder has delivered the whole folder",
+                  "the folder-level CRC is compared as soon as the packed input is exhausted (fp.tell() >= src_end), i.e. possibly after the FIRST member of a folder "
+                  "that holds several members: a valid archive with a folder CRC on a multi-member folder raises CrcError")
+
+
 def r06_6(ctx: Ctx) -> None:
     from . import c01
     c01.r01_1(ctx, rule="R06.6", decoder_only=True)
@@ -305,3 +377,5 @@ def run(ctx: Ctx) -> None:
     r06_4(ctx)
     r06_5(ctx)
     r06_6(ctx)
+    r06_7(ctx)
+    r06_8(ctx)
